@@ -451,3 +451,83 @@ Proof.
   - cbn [app]. specialize (P2 w0 0 Hf0 eq_refl).
     destruct (rtmp_write_ops (msgs_write_ops DEFCHUNK ms) (bufw_new w0) 0) as [[n2 e2] b]. exact P2.
 Qed.
+
+(* ---------- no spurious failures: a transport without a fault stays intact, so nothing fails ---- *)
+Definition intact (w : wtr) : Prop := wt_failat w = None /\ wt_failed w = false.
+
+Lemma wt_write_intact p w : intact w ->
+  exists w', wt_write p w = (lenN p, None, w') /\ intact w'.
+Proof.
+  intros [Ha Hf]. unfold wt_write. rewrite Hf, Ha. eexists. split; [reflexivity|]. split; reflexivity.
+Qed.
+
+Lemma copy_bytes_intact p w : intact w -> intact (snd (copy_bytes p w)).
+Proof.
+  intros H. unfold copy_bytes. destruct p as [|x p]; [exact H|].
+  destruct (wt_write_intact (x :: p) w H) as (w' & -> & H'). rewrite N.eqb_refl. exact H'.
+Qed.
+
+Lemma raw_copies_intact sizes : forall w n, intact w -> intact (snd (raw_copies sizes w n)).
+Proof.
+  induction sizes as [|k r IH]; intros w n H; cbn [raw_copies]; [exact H|].
+  pose proof (copy_bytes_intact (repeat 0 (N.to_nat k)) w H) as H1.
+  destruct (copy_bytes (repeat 0 (N.to_nat k)) w) as [[e|] w1]; [exact H1|]. now apply IH.
+Qed.
+
+Lemma bw_flush_intact b : intact (bw_under b) -> intact (bw_under (snd (bw_flush b))).
+Proof.
+  intros H. unfold bw_flush. destruct (bw_err b); [exact H|]. destruct (bw_n b =? 0); [exact H|].
+  destruct (wt_write_intact (bw_buf b) (bw_under b) H) as (w' & -> & H').
+  destruct (lenN (bw_buf b) <? bw_n b); [rewrite split_at_spec|]; exact H'.
+Qed.
+
+Lemma bw_write_go_intact fuel : forall p b, intact (bw_under b) -> intact (bw_under (snd (bw_write_go fuel p b))).
+Proof.
+  induction fuel as [|f IH]; intros p b H; cbn [bw_write_go]; [exact H|].
+  destruct (bw_err b); [exact H|]. destruct (bw_avail b <? lenN p); [|exact H].
+  destruct (bw_n b =? 0).
+  - destruct (wt_write_intact p (bw_under b) H) as (w' & -> & H'). rewrite split_at_spec. apply IH. exact H'.
+  - rewrite split_at_spec.
+    set (b1 := mk_bufw _ _ _ _). pose proof (bw_flush_intact b1 H) as H1.
+    destruct (bw_flush b1) as [o b2]. apply IH. exact H1.
+Qed.
+
+Lemma bw_copies_intact ps : forall b, intact (bw_under b) -> intact (bw_under (snd (bw_copies ps b))).
+Proof.
+  induction ps as [|p ps IH]; intros b H; cbn [bw_copies]; [exact H|].
+  assert (H1 : intact (bw_under (snd (bw_copy_bytes p b)))).
+  { unfold bw_copy_bytes. destruct p; [exact H|]. apply bw_write_go_intact. exact H. }
+  destruct (bw_copy_bytes p b) as [[e|] b1]; [exact H1|]. now apply IH.
+Qed.
+
+Lemma rtmp_write_ops_intact ops : forall b n, intact (bw_under b) ->
+  intact (bw_under (snd (rtmp_write_ops ops b n))).
+Proof.
+  induction ops as [|o ops IH]; intros b n H; cbn [rtmp_write_ops]; [exact H|].
+  assert (H1 : intact (bw_under (snd (rtmp_write_message o b)))).
+  { unfold rtmp_write_message. pose proof (bw_copies_intact o b H) as Hc.
+    destruct (bw_copies o b) as [[e|] b1]; [exact Hc|]. apply bw_flush_intact. exact Hc. }
+  destruct (rtmp_write_message o b) as [[e|] b1]; [exact H1|]. now apply IH.
+Qed.
+
+Theorem rtmp_write_session_no_fault hs ms m term :
+  let '(n, oe, w) := rtmp_write_session hs ms (wtr_new None m term) in
+  oe = None /\ n = N.of_nat (length (rtmp_wops hs ms)) /\
+  wt_received w = concat (concat (rtmp_wops hs ms)).
+Proof.
+  pose proof (rtmp_write_session_spec hs ms None m term) as S. cbn zeta in S.
+  assert (Hi : intact (snd (rtmp_write_session hs ms (wtr_new None m term)))).
+  { unfold rtmp_write_session.
+    assert (H0 : intact (wtr_new None m term)) by (split; reflexivity).
+    destruct hs.
+    - pose proof (raw_copies_intact [1; 1536; 1536] (wtr_new None m term) 0 H0) as H1.
+      destruct (raw_copies [1; 1536; 1536] (wtr_new None m term) 0) as [[n1 [e|]] w1]; [exact H1|].
+      pose proof (rtmp_write_ops_intact (msgs_write_ops DEFCHUNK ms) (bufw_new w1) n1 H1) as H2.
+      destruct (rtmp_write_ops (msgs_write_ops DEFCHUNK ms) (bufw_new w1) n1) as [[n2 e2] b]. exact H2.
+    - pose proof (rtmp_write_ops_intact (msgs_write_ops DEFCHUNK ms) (bufw_new (wtr_new None m term)) 0 H0) as H2.
+      destruct (rtmp_write_ops (msgs_write_ops DEFCHUNK ms) (bufw_new (wtr_new None m term)) 0) as [[n2 e2] b]. exact H2. }
+  destruct (rtmp_write_session hs ms (wtr_new None m term)) as [[n oe] w]. cbn [snd] in Hi.
+  unfold session_ok in S. destruct oe as [e|].
+  - destruct S as (_ & Hf & _). destruct Hi as [_ Hf']. congruence.
+  - destruct S as (Hn & _ & Hr). cbn [app] in Hr. rewrite N.add_0_l in Hn. auto.
+Qed.
